@@ -181,6 +181,18 @@ def resolve_capture(t, caps):
     return None
 
 
+def subst_captures(t, caps):
+    """A closure-body term with every read of a captured variable (`(*_1).k`) replaced by what was captured where the closure was made (`*&x` folded to x)."""
+    if not isinstance(t, tuple):
+        return t
+    if len(t) == 3 and t[0] == "field" and str(t[2]).isdigit() and isinstance(t[1], tuple) and peel(t[1]) == ("param", 1) and int(t[2]) < len(caps):
+        return caps[int(t[2])]
+    r = tuple(subst_captures(u, caps) if isinstance(u, tuple) else u for u in t)
+    if len(r) == 2 and r[0] == "deref" and isinstance(r[1], tuple) and len(r[1]) == 2 and r[1][0] == "ref":
+        return r[1][1]
+    return r
+
+
 def once_per_region(body, site_bb, start, stop):
     """`site_bb` is executed exactly once on every path from `start` that reaches a `stop` block (the next loop iteration): every such path passes it (infeasible
     Ok/Err combinations pruned, see Body.reach_ps) and it does not lie on a cycle that avoids the stop blocks."""
@@ -397,6 +409,10 @@ def result_assign_blocks(body):
                     err.add(bi)
                 else:
                     ok.add(bi)
+            elif st["k"] == "assign" and not st["pl"]["p"] and st["pl"]["l"] in body.err_places():
+                rv = st["rv"]
+                if rv["k"] == "agg" and rv.get("variant") == "Err":
+                    err.add(bi)
         t = bb["term"]
         if t["k"] == "call" and t["dest"]["l"] == 0 and not t["dest"]["p"]:
             names = names_of(t.get("callee_args", "")) | names_of(t.get("callee", ""))
